@@ -20,7 +20,7 @@ from mc.kernel import exc_sig
 PROPERTY = "C15"
 RULE = "unit = one system; paths = (in_hull, range_of_solutions, fit) on the base problem and on each of the 64 rescaled twins; non-trivial = twins inside the well-scaled regime (asserted); distinct by (system, s, c, query)"
 ASSUMPTIONS = ["regime (from the property): both twins have gamut extent and |targets| in [1, 100] capture units and bounds in [0.05, 10]",
-               "tolerances: membership exact for targets with margin >= 1e-3 extent; ranges 1e-7 relative; fits: 2e-2 capture units in each twin's own units (default solver)"]
+               "tolerances: membership identical for targets with |margin| >= 1e-6 extent; ranges 1e-7 relative; fits: 2e-2 capture units in each twin's own units (default solver)"]
 BOUNDS = {"quick": "shapes 2x3 3x3 3x2 3x4 x 2 option variants; 8 targets; 64 unit changes", "thorough": "plus 2x4 4x4 4x5, seeded matrices"}
 TECHNIQUE = "every (system, target) pair x the full 8x8 unit-change grid; metamorphic twin relation with exact scale factors"
 LEVEL_TEXT = "every pair is re-expressed in each of 64 unit systems through the public API; gamut membership, solution ranges, uniquely determined fitted intensities, predicted captures and errors of the twin must be the exact rescaling of the base problem's; asserted inside the stated regime, recorded as a deviation histogram outside"
@@ -105,6 +105,10 @@ def run_unit(unit, rec):
     for cen, nu in fp[:2]:
         T.append(cen + 0.1 * ext * nu)
         T.append(cen - 0.05 * ext * nu)
+    for cen, nu in fp[:4]:
+        # near-boundary targets on both sides, at three times the stated margin (1e-6 x extent) of C03
+        T.append(cen + 3e-6 * ext * nu)
+        T.append(cen - 3e-6 * ext * nu)
     if not fp:
         T.append(c0 + Abar @ hi * 1.5)
     T = np.array(T)
@@ -146,7 +150,7 @@ def run_unit(unit, rec):
             bad = None
             if q == "in_hull":
                 decided = mg is None or True
-                idx = np.flatnonzero(np.abs(mg) >= 1e-3 * ext) if mg is not None else np.arange(len(T))
+                idx = np.flatnonzero(np.abs(mg) >= 1e-6 * ext) if mg is not None else np.arange(len(T))
                 if not np.array_equal(b0[idx], g[idx]):
                     bad = ("a", "gamut membership differs between the twins (s=%g, c=%g)" % (s, c))
                 dev = float(np.mean(b0[idx] != g[idx])) if len(idx) else 0.0
